@@ -15,7 +15,19 @@ TEXTS = {
     "C01": {"engine": "Q", "design_ref": "3/C01", "technique": "deterministic simulation (seeded sequential runs with per-call environment perturbation through trait seams) against an exact reference model",
             "level_text": "seeded exploration of (instance, configuration, perturbation) triples for the sequential solver; every run compared with the exact optimum of a reference model. Weakest fit of the technique (no schedule in the property); claimed because the perturbation seams reach per-sub-problem variation a static matrix does not.",
             "level_note": SOLVER_NOTE},
+    "C02": {"engine": "S+Q", "design_ref": "3/C02", "technique": "deterministic simulation: every solver run of the C01/C03/C05 arms (all schedules, all cutoff points) is followed by a replay of the reported solution through the reference model",
+            "level_text": "piggy-backs on the sequential, parallel and cutoff arms: after each maximize() the reported solution is replayed through the reference tables (domain membership, exact value), and value/solution/bounds/Completion coherence is checked.",
+            "level_note": SOLVER_NOTE},
     "C03": {"engine": "S", "design_ref": "3/C03", "technique": "deterministic simulation: seeded scheduler over the real threads of ParallelSolver (random, sticky, PCT, starvation, round-robin strategies), oracle = exact reference model",
             "level_text": "seeded search over schedules x instances x configurations of the real parallel solver (1..8 workers); every run is one exactly repeatable interleaving; the result is compared with the reference optimum. A clean batch is evidence, not proof.",
+            "level_note": SOLVER_NOTE},
+    "C04": {"engine": "S", "design_ref": "3/C04", "technique": "deterministic simulation with fault injection: seeded scheduler over the real worker threads, cutoff fired at a PRNG-chosen poll (persistent or flaky), thread count changed after construction; deadlock = no enabled worker while one is parked; bounded liveness by a scheduling step budget",
+            "level_text": "seeded search over schedules x thread counts (1..8, including counts changed through with_nb_threads) x cutoff points; the scheduler's own model of the mutex and condvar detects lost wake-ups as 'no enabled worker'; a step bound turns livelock into a violation; worker panics and premature completion are observed at the thread-exit hook.",
+            "level_note": SOLVER_NOTE + "; liveness is bounded: 'returns within 400000 scheduling steps'"},
+    "C05": {"engine": "S+Q", "design_ref": "3/C05", "technique": "deterministic simulation with fault injection: the cutoff starts answering stop at poll k; sequential: every k of each sampled instance (fault enumeration); parallel: k and the schedule both drawn from the seeded PRNG",
+            "level_text": "sequential solver: complete sweep of the crash point (cutoff index) per sampled instance/configuration; parallel solver: seeded exploration of (schedule, k). Oracle: lb <= optimum <= ub from the reference model, solution feasible with value = lb, is_exact only if optimal.",
+            "level_note": SOLVER_NOTE},
+    "C19": {"engine": "Q", "design_ref": "3/C19", "technique": "fault enumeration inside a deterministic simulation: the sequential solver is re-executed with the cutoff firing at every poll index k = 1..K+1 and consecutive k are compared",
+            "level_text": "for every sampled (instance, configuration) the whole range of crash points is enumerated; monotonicity of lb/ub in k and eventual exactness are checked on the complete series. Instances and configurations are sampled.",
             "level_note": SOLVER_NOTE},
 }
